@@ -811,8 +811,14 @@ async fn node_body(seed: u64) -> Out {
     let sessions = events.opened.lock().unwrap().clone();
     let (_br, mut bw) = tokio::io::split(bad_mine);
     let (okr, mut okw) = tokio::io::split(ok_mine);
-    let kind = p.below(5);
+    let kind = p.below(6);
     let payload: Vec<u8> = match kind {
+        5 => {
+            // a declared length above this server's configured cap (4096) but below the library default (16 MiB)
+            let mut d = (4097 + p.below(1 << 20)).to_be_bytes().to_vec();
+            d.extend(random_bytes(&mut p, 64));
+            d
+        }
         0 => random_bytes(&mut p, 200),
         1 => {
             let mut d = (1u64 << 40).to_be_bytes().to_vec();
@@ -860,7 +866,7 @@ async fn node_body(seed: u64) -> Out {
     }
     // the victim session: garbage that fails framing / decoding (kinds 1,2,3) or hits EOF must stop it
     if let Some(bad) = sessions.first() {
-        let must_stop = matches!(kind, 1 | 2 | 3);
+        let must_stop = matches!(kind, 1 | 2 | 3 | 5);
         if must_stop && bad.get_status() != ActorStatus::Stopped {
             v.push(("bad-session-alive".to_string(), format!("the session that received an oversized/undecodable/truncated frame (kind {kind}) is still {:?}", bad.get_status())));
         }
